@@ -1,7 +1,7 @@
 (* P_C05.v — C05, hand-written model of the tables: enumeration, mutual inverse of
    address and string lookup, table length, and the fermionic sign of excitation entries. *)
 From Coq Require Import NArith ZArith List Bool Arith Lia.
-From FQE Require Import Car Bits Addr Maps AddrThm MapsThm Bounds.
+From FQE Require Import Car Bits Addr Maps AddrThm MapsThm Bounds ZThm.
 Import ListNotations.
 
 Theorem C05_strings_enumerate : forall n k s, In s (strings n k) <-> (s < 2 ^ N.of_nat n)%N /\ popcount s = k.
@@ -35,6 +35,29 @@ Print Assumptions C05_address_injective.
 Theorem C05_model_lookup_is_address : forall n k s, In s (strings n k) -> index_of s (strings n k) = Some (raddr n k s).
 Proof. exact index_of_raddr. Qed.
 Print Assumptions C05_model_lookup_is_address.
+
+(* the Z matrix as the loops of _get_Z_matrix compute it: closed form of every entry read,
+   and THE ADDRESS sum_k Z[k][occ_k] OF A STRING IS ITS POSITION IN THE STRING TABLE,
+   for every orbital count and electron count (m_zmat / m_addr of the extracted model are
+   exactly zmat / addr) *)
+Theorem C05_zmat_entry_closed : forall norb nele k l : Z,
+  (1 <= k <= nele)%Z -> (k <= l <= norb - nele + k)%Z ->
+  zmat_entry norb nele k l = (binomZ (norb - k) (nele - k + 1) - binomZ (norb - l) (nele - k + 1))%Z.
+Proof. exact zmat_entry_closed. Qed.
+Print Assumptions C05_zmat_entry_closed.
+
+Theorem C05_zmatrix_address_is_table_index : forall n K s, In s (strings n K) ->
+  addr n K s = Z.of_nat (raddr n K s).
+Proof. exact addr_is_table_index. Qed.
+Print Assumptions C05_zmatrix_address_is_table_index.
+
+Theorem C05_zmatrix_address_is_lookup : forall n K s, In s (strings n K) ->
+  index_of s (strings n K) = Some (Z.to_nat (addr n K s)).
+Proof. exact addr_index_of. Qed.
+Print Assumptions C05_zmatrix_address_is_lookup.
+
+Example C05_zmatrix_example : addr 6 3 41%N = 8%Z /\ nth 8 (strings 6 3) 0%N = 41%N.
+Proof. vm_compute. split; reflexivity. Qed.
 
 Theorem C05_excitation_sign : forall i j d, i <> j -> i < length d -> nth j d false = true -> nth i d false = false ->
   scomp (cre i) (ann j) d =
